@@ -54,7 +54,7 @@ func TestVerif_C39(t *testing.T) {
 	res := kit.NewResult("one case = one command invocation with --dry-run (backup, forget [--prune], prune, rewrite, repair snapshots) or with --no-lock (snapshots, ls, find, diff, stats, cat, dump, restore, check, list) on a generated repository (with waste, so that the non-dry command would change it); judged by RepoTrace.tla ReadOnlyRespected / NoLockRespected on the innermost backend operations and by a byte-for-byte comparison of the storage; distinct by (repository seed, command variant)")
 	tr := kit.NewNDJSON("trace.ndjson")
 	defer tr.Close()
-	nrepo := kit.Pick(3, 30)
+	nrepo := kit.Pick(4, 30)
 	for ri := 0; ri < nrepo; ri++ {
 		seed := kit.Seed()*100000 + 3900 + int64(ri)
 		r := rand.New(rand.NewSource(seed))
@@ -90,12 +90,28 @@ func TestVerif_C39(t *testing.T) {
 		if !okRepo {
 			continue
 		}
-		// create waste so that prune / forget --prune would have something to do
-		if err := e.forget(ForgetOptions{}, PruneOptions{}, ids[0]); err != nil {
-			res.Problem("repo %d forget: %v", seed, err)
-			continue
+		// create waste so that prune / forget --prune would have something to do: either a forgotten
+		// snapshot, or (odd repositories) ONLY the unindexed packs of a killed backup
+		if ri%2 == 0 {
+			if err := e.forget(ForgetOptions{}, PruneOptions{}, ids[0]); err != nil {
+				res.Problem("repo %d forget: %v", seed, err)
+				continue
+			}
+			ids = ids[1:]
+		} else {
+			vWriteTree(t, src, vGenFiles(r, 5, 60, false))
+			e.store.DieAt = e.store.NumMut() + 2 + r.Intn(2)
+			_ = e.run("backup", nil, func(ctx context.Context, g global.Options) error {
+				ctx, cancel := context.WithCancel(ctx)
+				defer cancel()
+				e.store.OnDead = cancel
+				return runBackup(ctx, BackupOptions{GroupBy: data.SnapshotGroupByOptions{Host: true, Path: true}}, g, g.Term, []string{src})
+			})
+			e.store.Revive()
+			for _, n := range e.store.Names(backend.LockFile) {
+				e.store.EnvRemove(backend.Handle{Type: backend.LockFile, Name: n})
+			}
 		}
-		ids = ids[1:]
 		// new source content for backup --dry-run
 		vWriteTree(t, src, vGenFiles(r, 5, 40, false))
 		target := filepath.Join(e.base, "restore-target")
